@@ -238,7 +238,7 @@ func runC08(t *testing.T, sci interface{}) *Outcome {
 			ctx, cancel := gocontext.WithCancel(gocontext.Background())
 			defer cancel()
 			ka := hap.NewKeepAlive(10*time.Minute, w.Tr.VerifContext())
-			s.Go("ka", func() { ka.Start(ctx) })
+			s.GoNow("ka", func() { ka.Start(ctx) })
 			s.Extra = func() []core.Action {
 				if kaLeft <= 0 || !subscribed {
 					return nil
